@@ -144,6 +144,7 @@ func (c *Checked) checkDot(i int, op Op, res *OpResult) {
 	}
 	if errMode {
 		c.checkDotError(i, op, g, byCatColors(byCat), func(cat int) *MCtor { return accepted[cat] })
+		c.checkDotErrorGroups(i, op, g, byCat, func(cat int) *MCtor { return accepted[cat] })
 		return
 	}
 	c.probe("dot_structure_checked")
@@ -482,4 +483,87 @@ func fnList(ns []*MCtor) string {
 	}
 	sort.Strings(parts)
 	return "[" + strings.Join(parts, " ") + "]"
+}
+
+// checkDotErrorGroups: in the picture of a failure, a value-group node may only
+// be linked to results that are still drawn (members of constructors that did
+// not fail are pruned together with their constructors), and when the failing
+// constructor is a member of a group the failed Invoke asked for directly, the
+// group's node is linked to that member.
+func (c *Checked) checkDotErrorGroups(i int, op Op, g *DotGraph, byCat map[int]*dotCl, accepted func(cat int) *MCtor) {
+	s := c.lastInv[op.ErrFrom-1]
+	if s == nil || s.hasDecs || op.ErrFrom-1 != i-1 || c.H.Ops[op.ErrFrom-1].Kind != OpInvoke || !s.canVis {
+		return
+	}
+	inCluster := map[string]int{} // node id -> catalogue function of its cluster
+	memberID := map[int]map[Key]string{}
+	for cat, x := range byCat {
+		n := accepted(cat)
+		for _, nd := range x.nodes {
+			inCluster[nd.ID] = cat
+		}
+		if n == nil {
+			continue
+		}
+		var keys []Key
+		for _, r := range n.LR {
+			keys = append(keys, r.Keys...)
+		}
+		if len(keys) != len(x.nodes) {
+			continue
+		}
+		memberID[n.Fn] = map[Key]string{}
+		for j, k := range keys {
+			if k.IsGroup() {
+				memberID[n.Fn][k] = x.nodes[j].ID
+			}
+		}
+	}
+	diamondEdges := map[string][]string{}
+	for _, n := range g.Nodes {
+		if n.Cluster < 0 && n.Attrs["shape"] == "diamond" {
+			diamondEdges[n.ID] = nil
+		}
+	}
+	for _, e := range g.Edges {
+		if _, ok := diamondEdges[e.From]; ok {
+			diamondEdges[e.From] = append(diamondEdges[e.From], e.To)
+			if _, drawn := inCluster[e.To]; !drawn {
+				c.viol(i, "dot-error-group-dangling", fmt.Sprintf("group node %q is linked to %q, which is not a result of any constructor still drawn", e.From, e.To), "C19")
+			}
+		}
+	}
+	if s.firstFail < 0 {
+		return
+	}
+	fc := c.M.ByFn[s.firstFail]
+	if fc == nil {
+		return
+	}
+	if len(s.lp) != 1 {
+		// with other parameters the failure may have been reached through one
+		// of them, in which case the group itself is not part of the failure
+		return
+	}
+	for _, p := range s.lp {
+		if !p.Key.IsGroup() || p.Soft {
+			continue
+		}
+		id, ok := memberID[fc.Fn][p.Key]
+		if !ok {
+			continue
+		}
+		c.probe("dot_error_group_member")
+		linked := false
+		for _, tos := range diamondEdges {
+			for _, to := range tos {
+				if to == id {
+					linked = true
+				}
+			}
+		}
+		if !linked {
+			c.viol(i, "dot-error-group-member", fmt.Sprintf("f%d failed while the Invoke collected %s, of which it is a member; no group node is linked to that member", fc.Fn, p.Key), "C19")
+		}
+	}
 }
